@@ -12,6 +12,7 @@ CONSTANTS
   Lossy = TRUE
   SnapCond = TRUE
   GenDepth = 40
+  RankIds = TRUE
 CONSTRAINT InFlightBound
 INVARIANT AncestorClosed
 INVARIANT Converged
